@@ -166,7 +166,7 @@ def explore(line, bound=2, max_runs=3000, batch=200):
 
 
 def run_conc_property(pid, tier, seed, replay, *, judges, classify=None, n_quick=1500, n_thorough=30000,
-                      gen_kw=None, flags="drain,mode=O", corr=True, extra_lines=None, rule=""):
+                      gen_kw=None, flags="drain,mode=O", corr=True, extra_lines=None, rule="", extra_obligations=None):
     """judges: list of (name, fn(rec, prog, info) -> text|None).  classify(text, rec, prog, info) -> 'Kx ...' | None"""
     ck = Check(pid, tier, seed)
     rng = random.Random(seed)
@@ -243,6 +243,8 @@ def run_conc_property(pid, tier, seed, replay, *, judges, classify=None, n_quick
                   not corr_bad, "%d runs differ" % len(corr_bad))
     ck.oblige("judge: the property holds on every implementation run (outside listed known findings)", not judge_bad,
               "%d runs fail" % len(judge_bad))
+    if extra_obligations and not replay:
+        extra_obligations(ck)
     listed = {f["id"]: f for f in known_findings()["findings"] if pid in f["properties"]}
     for kid, (text, line, k) in sorted(known.items()):
         if kid in listed:
